@@ -251,6 +251,21 @@ func copyRegularFile(src, dst string, perm os.FileMode) error {
 	return dstFile.Close()
 }
 
+// isWithin reports whether child is parent or lies below it.
+func isWithin(parent, child string) bool {
+	rel, err := filepath.Rel(parent, child)
+	return err == nil && rel != ".." && !strings.HasPrefix(rel, ".."+string(filepath.Separator))
+}
+
+// checkCopyMovePaths refuses a COPY or MOVE whose source and destination are
+// the same resource or contain one another, before anything is modified.
+func checkCopyMovePaths(srcPath, dstPath string) error {
+	if isWithin(srcPath, dstPath) || isWithin(dstPath, srcPath) {
+		return NewHTTPError(http.StatusForbidden, fmt.Errorf("webdav: source and destination overlap"))
+	}
+	return nil
+}
+
 func (fs LocalFileSystem) Copy(ctx context.Context, src, dst string, options *CopyOptions) (created bool, err error) {
 	srcPath, err := fs.localPath(src)
 	if err != nil {
@@ -266,6 +281,9 @@ func (fs LocalFileSystem) Copy(ctx context.Context, src, dst string, options *Co
 
 	if _, err := os.Stat(srcPath); err != nil {
 		return false, errFromOS(err)
+	}
+	if err := checkCopyMovePaths(srcPath, dstPath); err != nil {
+		return false, err
 	}
 
 	if _, err := os.Stat(dstPath); err != nil {
@@ -323,6 +341,13 @@ func (fs LocalFileSystem) Move(ctx context.Context, src, dst string, options *Mo
 	}
 	dstPath, err := fs.localPath(dst)
 	if err != nil {
+		return false, err
+	}
+
+	if _, err := os.Stat(srcPath); err != nil {
+		return false, errFromOS(err)
+	}
+	if err := checkCopyMovePaths(srcPath, dstPath); err != nil {
 		return false, err
 	}
 
